@@ -1,3 +1,5 @@
+//go:build mcbuild
+
 // C13: parallel.Do / DoContext / Map / MapContext. Engine E2.
 package main
 
